@@ -332,6 +332,26 @@ func genCase(r *vrun.Run, idx int) caseSpec {
 		for k := 0; k < np; k++ {
 			c.Patterns = append(c.Patterns, genValidPattern(rng, names))
 		}
+		// Patterns with '.', '.*' or a negated class can match ACROSS a path separator when applied to a joined path although
+		// no single component contains a match. They are generated for the entry points that the property lets us judge
+		// per component (everything but copy, whose whole-path matching is a recorded don't-care region).
+		if !strings.HasPrefix(c.EP, "Copy") && rng.IntN(5) == 0 {
+			var nested []treegen.Node
+			for _, n := range c.Nodes {
+				if strings.Contains(n.Path, "/") {
+					nested = append(nested, n)
+				}
+			}
+			if len(nested) > 0 {
+				n := nested[rng.IntN(len(nested))]
+				comps := strings.Split(n.Path, "/")
+				par, child := regexp.QuoteMeta(comps[len(comps)-2]), regexp.QuoteMeta(comps[len(comps)-1])
+				cross := []string{par + "." + child, par + ".*" + child, par + "[^" + string(nameLetters[rng.IntN(len(nameLetters))]) + "]" + child, par + ".+" + child, par + `\W` + child}[rng.IntN(5)]
+				if _, err := regexp.Compile(cross); err == nil {
+					c.Patterns = append(c.Patterns, cross)
+				}
+			}
+		}
 	}
 	return c
 }
@@ -1092,7 +1112,7 @@ func main() {
 	must(r, os.MkdirAll(scratch, 0o755))
 	defer os.RemoveAll(scratch)
 
-	r.Rule("one case = (tree of depth 0..4 and fan-out 0..4 whose entry names are 1..4 characters from {b,d,k,x,0,1,2,'.','_'}; 0..3 anchor-free patterns: quoted whole names / pieces of names of the tree, names with an optional or repeated tail, alternations, or grammar-generated regexes from literals, classes, ?*+{m,n}, lazy quantifiers, groups and alternation over the same characters (never '.', never a negated class); 1 case in 8 mixes one or two invalid patterns in; one of 16 entry-point variants of walk / ls / recursive ls (with and without directories, with and without limits) / tree listing / sub-directories / copy (same FS and across backends, new and existing destination) / zip (with and without limits) / remove / clean; backend OS scratch directory or in-memory). " +
+	r.Rule("one case = (tree of depth 0..4 and fan-out 0..4 whose entry names are 1..4 characters from {b,d,k,x,0,1,2,'.','_'}; 0..3 anchor-free patterns: quoted whole names / pieces of names of the tree, names with an optional or repeated tail, alternations, or grammar-generated regexes from literals, classes, ?*+{m,n}, lazy quantifiers, groups and alternation over the same characters (never '.', never a negated class), plus — for every entry point except copy — in 1 case of 5 a pattern joining a parent's and a child's name with '.', '.*', '.+', \\W or a negated class, which matches across a separator on a joined path but in no single component; 1 case in 8 mixes one or two invalid patterns in; one of 16 entry-point variants of walk / ls / recursive ls (with and without directories, with and without limits) / tree listing / sub-directories / copy (same FS and across backends, new and existing destination) / zip (with and without limits) / remove / clean; backend OS scratch directory or in-memory). " +
 		"Tree root, destination and archive names come from a disjoint upper-case alphabet and a case in which a pattern finds a match in one of those absolute paths is skipped. " +
 		"non-trivial = valid non-empty pattern set that matches in full the name of at least one tree entry (invalid sets: the tree is not empty); distinct = canonical (backend, entry point, patterns, tree listing).")
 	r.Assume("Go's regexp package defines 'matched in full' (^(?:p)$ matches the name), 'contains a match' (p matches somewhere in the component) and which patterns are invalid",
